@@ -305,6 +305,8 @@ class Scanner:
             if kind != TokenKind.PEEK:
                 return True
 
+            self.skip_trivia()
+
             if self.peek() == "[":
                 self.emit(TokenKind.LBRACKET, self.next())
             else:
@@ -320,6 +322,8 @@ class Scanner:
                 self.emit(TokenKind.RANGE_OP, value)
             else:
                 self.error("expected a range operator")
+
+            self.skip_trivia()
 
             if value := self.scan(RE_INTEGER):
                 self.emit(TokenKind.INTEGER, value)
